@@ -1,6 +1,8 @@
 package main
 
 import (
+	"crypto/sha256"
+	"encoding/binary"
 	"fmt"
 	"math/big"
 	"math/rand"
@@ -34,6 +36,16 @@ type mixGen struct {
 	ethFunded    bool
 	ethCtr       int64
 	ethContracts []*types.Address
+	poorFunded   bool
+	poorNonce    uint64
+}
+
+// wasmCreateAddress is the address pkg/vm/wasm gives a contract deployed by b at ledger nonce n.
+func wasmCreateAddress(b *types.Address, n uint64) *types.Address {
+	nb := make([]byte, 8)
+	binary.LittleEndian.PutUint64(nb, n)
+	h := sha256.Sum256(append(append([]byte{}, b.Bytes()...), nb...))
+	return types.NewAddress(h[12:])
 }
 
 // ethTx draws one Ethereum-format transaction: plain transfers, deployments, calls, and the rejections
@@ -276,6 +288,28 @@ func (g *mixGen) genBlock(h uint64) []pb.Transaction {
 			txs = append(txs, g.govTx())
 		case x < 88: // XVM
 			k := harness.User(r.Intn(4))
+			if r.Intn(3) == 0 {
+				// a deployer that cannot pay the deploy fee: the code is written first and the fee fails
+				// afterwards. The address the contract would get is funded beforehand, so that the failed
+				// deployment hits an account that already exists in the ledger
+				poor := harness.DetKey("poor-deployer")
+				target := wasmCreateAddress(poor.Addr, g.poorNonce)
+				if !g.poorFunded {
+					g.poorFunded = true
+					txs = append(txs, w.Transfer(k, poor.Addr, "1000"), w.Transfer(k, target, "5"))
+					g.note("xvm-poor-deployer-funded")
+					break
+				}
+				code, _ := harness.RuleWasm("firstbyte")
+				txs = append(txs, harness.XVMDeployTx(poor, w.Nonce(poor.Addr), w.Stamp(), code))
+				if r.Intn(2) == 0 { // and a call of the address in the same block
+					txs = append(txs, harness.XVMInvokeTx(k, w.Nonce(k.Addr), w.Stamp(), target, "start_verify", pb.Bytes([]byte{1}), pb.Bytes([]byte("v")), pb.Bytes([]byte("p"))))
+				}
+				g.poorNonce++
+				txs = append(txs, w.Transfer(k, wasmCreateAddress(poor.Addr, g.poorNonce), "5")) // the next target
+				g.note("xvm-deploy-unpaid-to-existing-account")
+				break
+			}
 			if len(g.ruleAddr) == 0 || r.Intn(2) == 0 {
 				code, _ := harness.RuleWasm([]string{"firstbyte", "never", "trap"}[r.Intn(3)])
 				tx := harness.XVMDeployTx(k, w.Nonce(k.Addr), w.Stamp(), code)
